@@ -279,4 +279,133 @@ def request (s : SIn) (data : List Byte) (acts : List Act) : ReqRes :=
       else ⟨h.s, true, ctx, 0, h.results, h.frames, h.ret⟩
 
 end StreamIn
+
+/-
+  Requester side, C++: mpt++/io_stream.cpp (io::stream::await / push / dispatch::process / sync) with
+  mptcore/event/command_reserve.c (id assignment) and mptio/stream/stream_sync.c, after fix 6a46010
+  (handlers are looked up by id).  `_wait` is the array of `struct command {id, cmd, arg}`:
+  `tag = some t` = handler registered (calls are logged as `h<t>(payload)`), `none` = `cmd == 0`.
+-/
+namespace Requester
+open Mpt.ReplySpec (byteOf beDigits)
+
+structure Slot where
+  id : Nat
+  tag : Option Nat
+  deriving Repr, DecidableEq
+
+/-- a handler call: tag and message payload (`none` = NULL message) -/
+structure Call where
+  tag : Option Nat            -- `none` = the event handler for non-reply messages
+  msg : Option (List Byte)
+  deriving Repr, DecidableEq
+
+structure St where
+  idlen : Nat
+  arr : Option (List Slot) := none      -- `_wait` buffer, entries below `_used`
+  cid : Nat := 0
+  inq : List (List Byte) := []          -- decoded messages not yet consumed
+  deriving Repr, DecidableEq
+
+/-- largest id for a header width (command_reserve.c) -/
+def idMax (w : Nat) : Nat :=
+  match w with
+  | 0 => 0 | 1 => 127 | 2 => 32767 | 3 => 8388607 | 4 => 2147483647
+  | 5 => 549755813887 | 6 => 140737488355327 | 7 => 36028797018963967
+  | _ => 9223372036854775807
+
+def active (es : List Slot) : List Slot := es.filter (·.tag.isSome)
+
+/-- smallest id in `1..max` that no active entry uses -/
+def freeId (act : List Slot) : Nat → Nat → Option Nat
+  | 0, _ => none
+  | fuel + 1, i => if act.any (·.id == i) then freeId act fuel (i + 1) else some i
+
+/-- `mpt_command_reserve(arr, idlen)` followed by `cmd->cmd = handler`: new array and the id -/
+def reserve (arr : Option (List Slot)) (idlen tag : Nat) : Option (List Slot × Nat) :=
+  if idlen = 0 then none else
+  match arr with
+  | none => some (⟨1, some tag⟩ :: List.replicate 7 ⟨0, none⟩, 1)
+  | some es =>
+    let mid := es.foldl (fun m e => Nat.max m e.id) 0
+    let act := active es
+    let id : Option Nat := if mid ≥ idMax idlen then freeId act (act.length + 1) 1 else some (mid + 1)
+    match id with
+    | some i => if i > idMax idlen then none else some (act ++ [⟨i, some tag⟩], i)
+    | none => none
+
+/-- `io::stream::await(handler, tag)` (no message being composed) -/
+def await (s : St) (tag : Nat) : Option (St × Nat) :=
+  match reserve s.arr s.idlen tag with
+  | some (a, i) => some ({ s with arr := some a, cid := i }, i)
+  | none => none
+
+/-- `push(data); push(0, 0)`: the frame put on the stream -/
+def send (s : St) (data : List Byte) : St × List Byte :=
+  ({ s with cid := 0 }, beDigits s.idlen s.cid ++ data)
+
+/-- `mpt_command_get/find`: the active entry with this id -/
+def findActive (es : List Slot) (id : Nat) : Option Nat := (es.find? fun e => e.tag.isSome && e.id == id).bind (·.tag)
+def deactivate (es : List Slot) (id : Nat) : List Slot :=
+  match es with
+  | [] => []
+  | e :: r => if e.tag.isSome && e.id == id then { e with tag := none } :: r else e :: deactivate r id
+
+/-- `io::stream::dispatch::process(msg)` for one decoded message -/
+def process (s : St) (m : List Byte) : St × Option Call :=
+  if s.idlen = 0 then (s, some ⟨none, some m⟩) else
+  let id := m.take s.idlen
+  let payload := m.drop s.idlen
+  if (id.headD 0).toNat ≥ 128 then
+    match MsgId.buf2id (Reply.unmark id) with
+    | .ok (rid, _) =>
+      match findActive (s.arr.getD []) rid with
+      | some t => ({ s with arr := s.arr.map (deactivate · rid) }, some ⟨some t, some payload⟩)
+      | none => (s, none)                     -- "unknown reply id"
+    | _ => (s, none)
+  else (s, some ⟨none, some payload⟩)           -- no reply context on this stream: plain event
+
+/-- dispatch until the input is drained -/
+def drain : List (List Byte) → St → List Call → St × List Call
+  | [], s, log => ({ s with inq := [] }, log)
+  | m :: ms, s, log =>
+    let r := process s m
+    drain ms r.1 (log ++ r.2.toList)
+
+/-- message loop of `mpt_stream_sync`: runs while handlers wait; result: state, calls, left the loop regularly? -/
+def syncLoop : List (List Byte) → St → Nat → List Call → St × List Call × Bool
+  | q, s, 0, log => ({ s with inq := q }, log, true)
+  | [], s, _, log => ({ s with inq := [] }, log, false)           -- no further input: `return count`
+  | m :: ms, s, count + 1, log =>
+    if m.length < s.idlen ∨ ((m.take s.idlen).headD 0).toNat < 128 then ({ s with inq := m :: ms }, log, false)
+    else
+      match MsgId.buf2id (Reply.unmark (m.take s.idlen)) with
+      | .ok (rid, _) =>
+        match findActive (s.arr.getD []) rid with
+        | some t => syncLoop ms { s with arr := s.arr.map (deactivate · rid) } count (log ++ [⟨some t, some (m.drop s.idlen)⟩])
+        | none => syncLoop ms s (count + 1) log       -- no handler, no fallback: dropped
+      | _ => ({ s with inq := m :: ms }, log, false)
+
+/-- `io::stream::sync` → `mpt_stream_sync(_srm, _idlen, &_wait, 0)` -/
+def sync (s : St) : St × List Call :=
+  match s.arr with
+  | none => (s, [])
+  | some es =>
+    if es.length = 0 ∨ s.idlen = 0 then (s, []) else
+    let count := (active es).length
+    let r := syncLoop s.inq s count []
+    let s1 := r.1
+    let es1 := s1.arr.getD []
+    -- "compress waiting return commands" when at most half of the entries still wait
+    if r.2.2 ∧ (active es1).length ≤ es.length / 2 then ({ s1 with arr := some (active es1) }, r.2.1)
+    else (s1, r.2.1)
+
+/-- `push(1, NULL)`: the request being composed is cancelled, its handler is told so -/
+def abort (s : St) : Option Call :=
+  if s.cid = 0 then none else (findActive (s.arr.getD []) s.cid).map fun t => ⟨some t, none⟩
+
+/-- destruction: every handler still waiting is called with a NULL message (`~command`) -/
+def close (s : St) : List Call := (active (s.arr.getD [])).map fun e => ⟨e.tag, none⟩
+
+end Requester
 end Mpt
